@@ -93,6 +93,17 @@ Theorem C05_one_seat_majority_wins_cfer_partial : forall A S (ZL : zlike A S) cf
 Proof. exact count_majority_cfer. Qed.
 Print Assumptions C05_one_seat_majority_wins_cfer_partial.
 
+(* ... and wigm-prf with OR without sure-loser batches (wigm-prf, wigm-prf-batch): no hypothesis on cf_batch *)
+Theorem C05_one_seat_majority_wins_prf_batch_partial : forall A S (ZL : zlike A S) cfg,
+  exact A = false -> raw ZL (epsilon A) = 1 -> cf_nseats cfg = 1 ->
+  forall pr m fuel s k, wf_profile pr -> cf_nballots cfg = ballot_total pr ->
+  (exists pc, In pc (pr_cands pr) /\ pc_cid pc = m /\ pc_withdrawn pc = false) ->
+  ballot_total pr < 2 * first_prefs pr m ->
+  exec (@crashed A) fuel (count_cmd A cfg RWigmPrf) (init_state A cfg pr) = Some (s, k) -> k <> Abort ->
+  forall c, In c (cands s) -> cid c = m -> cst c = Elected.
+Proof. exact count_majority_prf_any. Qed.
+Print Assumptions C05_one_seat_majority_wins_prf_batch_partial.
+
 (* ... for every ballot file the reader accepts (no equal-rank ballots; [p_eligible] = the candidates that are not withdrawn) *)
 From Droop Require Import Model.Profile Model.EndToEnd Proofs.EndToEndLink.
 Theorem C05_one_seat_majority_wins_scotland_for_every_accepted_file : forall A S (ZL : zlike A S) cfg,
